@@ -1,7 +1,7 @@
 (* Props/C16.v — PEG conversion bank (legacy era): limit, proportional yield, refund.
    Only statements, each closed by [exact]; proofs live in Lemmas/. *)
 From Model Require Import Examples.
-From Lemmas Require Import ArithLemmas PayoutLemmas.
+From Lemmas Require Import ArithLemmas PayoutLemmas HistoryLemmas4 BankLemmas.
 From Gen Require Import Consts.
 Open Scope Z_scope.
 
@@ -37,6 +37,26 @@ Theorem C16_order_independent : forall bank (a b : requests),
   Permutation.Permutation a b -> List.NoDup (map fst a) -> Permutation.Permutation (payouts bank a) (payouts bank b).
 Proof. exact payouts_perm. Qed.
 Print Assumptions C16_order_independent.
+
+(* The same at the level of the LEDGER (recordPegnetRequests on entries made of PEG requests): the PEG supply grows
+   by exactly the sum of the yields, which is at most the bank (all of it when the requests reach it, exactly what
+   was asked below it); from V4OPRUpdate on the bank row keeps its amount and records used = PEG created and
+   requested = the total asked for; before, no bank row is written.  For every state, every set of entries. *)
+Theorem C16_peg_created_within_bank : forall c h s batches rates avgs bankamt bh s',
+  pure_peg_batches batches -> 0 <= bankamt < two64 ->
+  record_peg_requests c h s batches rates avgs bankamt bh = Ok s' ->
+  let rs := map (fun r => (pr_txid r, pr_amt r)) (reqs_of c h rates avgs batches) in
+  supply s' PTickerPEG = supply s PTickerPEG + sum_snd (payouts bankamt rs) /\
+  sum_snd (payouts bankamt rs) <= bankamt /\
+  (bankamt <= total_requested_big rs -> rs <> [] -> sum_snd (payouts bankamt rs) = bankamt) /\
+  (total_requested_big rs < bankamt -> payouts bankamt rs = rs) /\
+  (c_V4OPRUpdate c <= bh -> exists amount u q, bank s !! bh = Some (amount, u, q) /\
+      bank s' = <[bh := (amount, sum_snd (payouts bankamt rs), total_requested rs)]> (bank s)) /\
+  (bh < c_V4OPRUpdate c -> bank s' = bank s).
+Proof. exact peg_created_within_bank. Qed.
+Print Assumptions C16_peg_created_within_bank.
+(* hypotheses satisfiable: two entries asking for more than the 5000 PEG bank create exactly 5000 PEG *)
+Check peg_created_within_bank_hyps.
 
 Example C16_example :
   BankBaseAmount = 5000 * 100000000 /\
